@@ -49,6 +49,17 @@ def comprehension(I, node, env, sl, elt_fn):
         return SList(sl.length, lambda t: child_predicate(I, elt, env, g.target.id, fam, t), f"pred({sl.tag})")
     fo = getattr(sl, "filter_of", None)
     if fo is not None and isinstance(g.target, ast.Name) and isinstance(elt, ast.Attribute) and isinstance(elt.value, ast.Name) \
+            and elt.value.id == g.target.id and elt.attr == "_inner":
+        # (negation._inner for negation in negations): the operands of filtered unary children
+        if getattr(sl, "guard_class", None) not in ("Negation", "Reciprocal", "Sine", "Cosine"):
+            _unsupported("_inner of the elements of a list not known to be plain unary nodes")
+        whole, sigma, _p = fo
+        inner = whole.family.inner_family(I)
+        r = SList(sl.length, lambda u: inner.child(I, sigma(u)), f"inner({sl.tag})")
+        r.all_expr = True
+        r.inner_of = sl
+        return r
+    if fo is not None and isinstance(g.target, ast.Name) and isinstance(elt, ast.Attribute) and isinstance(elt.value, ast.Name) \
             and elt.value.id == g.target.id and elt.attr in CHILD_ATTRS:
         # (constant.value for constant in constants): every element is of the guarding class
         owner = CHILD_ATTRS[elt.attr]
@@ -381,6 +392,10 @@ def concat_star(I, extra):
     if len(extra) == 1:
         return extra[0].slist
     stars = [i for i, x in enumerate(extra) if isinstance(x, StarArgs)]
+    if len(stars) >= 2 and stars == list(range(len(stars))) and all(isinstance(x, Obj) for x in extra[len(stars):]):
+        r = gmode.ConcatList([x.slist for x in extra[:len(stars)]], extra[len(stars):])
+        r.all_expr = r.all_expr and all(_is_expression(I, x) for x in extra[len(stars):])
+        return r
     if len(stars) == 1 and stars[0] == 0 and all(isinstance(x, Obj) for x in extra[1:]):
         r = gmode.SnocList(extra[0].slist, extra[1:])
         r.all_expr = getattr(extra[0].slist, "all_expr", False) and all(_is_expression(I, x) for x in extra[1:])
@@ -469,6 +484,8 @@ def helper_nary_init(I, fd, args):
         inn = gmode.ConsList(sl.prefix, sl.rest)
     elif isinstance(sl, gmode.SnocList):
         inn = gmode.SnocList(sl.rest, sl.suffix)
+    elif isinstance(sl, gmode.ConcatList):
+        inn = gmode.ConcatList(sl.parts, sl.suffix)
     else:
         inn = SList(sl.length, sl.elem, f"copy({sl.tag})", family=sl.family)
         inn.all_expr = True
@@ -482,7 +499,7 @@ def helper_nary_init(I, fd, args):
 
 HELPER_CONTRACTS = {
     "NAryExpression.__init__": (helper_nary_init, lambda args, I=None: len(args) >= 2 and isinstance(args[0], Obj)
-                                and sum(isinstance(x, StarArgs) for x in args) == 1),
+                                and sum(isinstance(x, StarArgs) for x in args) >= 1),
     "utilities.partition_by_predicate": (lambda I, fd, args: helper_partition(I, fd, args),
                                          lambda args: len(args) == 2 and isinstance(args[0], SList) and args[0].family is not None),
     "math_functions.multiply": (helper_multiply, lambda args: any(isinstance(x, StarArgs) for x in args)),
@@ -497,7 +514,7 @@ def helper_contract(I, fd, args, kwargs):
         return NotImplemented
     if fd.qualname == "NAryExpression.__init__" and not I.ghost.get("lazy_depth") \
             and not (len(args) > 2 and all(isinstance(x, Obj) for x in args[1:-1])) \
-            and not (len(args) > 2 and isinstance(args[1], StarArgs) and all(isinstance(x, Obj) for x in args[2:])):
+            and not (len(args) > 2 and isinstance(args[1], StarArgs) and all(isinstance(x, (Obj, StarArgs)) for x in args[2:])):
         return NotImplemented         # constructions at statement level run the real constructor
                                       # (except f(a, *rest): its operand list has no element function)
     I.ghost.setdefault("helper_contracts_used", set()).add(fd.qualname)
